@@ -176,6 +176,8 @@ func BuildLog(p *Params, part int32) ([]*simkafka.StoredBatch, []Want) {
 			b.Magic = 2 // with compaction gaps, below
 		case 9:
 			b.Magic, b.LogAppendTime = 1, true // plain v1 messages with LogAppendTime
+		case 10:
+			b.Magic, b.Codec = 1, p.Codec // v1 wrapper of a compacted topic: inner relative offsets with a gap
 		default:
 			panic("format")
 		}
@@ -192,6 +194,10 @@ func BuildLog(p *Params, part int32) ([]*simkafka.StoredBatch, []Want) {
 			b.Recs = append(b.Recs, r)
 		}
 		b.LastOffsetDelta = int32(cnt - 1)
+		if f == 10 && cnt >= 3 {
+			// the log cleaner removed the second record; the wrapper keeps the last retained offset
+			b.Recs = append([]simkafka.StoredRec{b.Recs[0]}, b.Recs[2:]...)
+		}
 		if f == 8 && cnt >= 2 {
 			// compaction removed the last record of the batch (the batch keeps its last offset delta),
 			// and, with three or more records, also the second one
